@@ -97,7 +97,7 @@ def _layout(draw, d_strategy=None, n_strategy=None, widths_pool=None):
                 end_plus_one=draw(st.booleans()),
                 pad=[draw(st.integers(0, 40)), draw(st.integers(0, 40)), draw(st.integers(0, 40))],
                 pad_seed=draw(st.one_of(st.none(), st.integers(0, 2 ** 16))), trail=draw(st.integers(0, 3)),
-                blank_analysis=draw(st.booleans()))
+                blank_analysis=draw(st.booleans()), num_pad=draw(st.sampled_from([None, None, 'blank_left', 'blank_right'])))
     return spec
 
 
